@@ -15,6 +15,13 @@ def cstr (s : Bytes) : Bytes := s.takeWhile (· ≠ 0)
 /-- `std::string(begin+a, begin+b)` -/
 def sub (s : Bytes) (a b : Int) : Bytes := (s.drop a.toNat).take (b.toNat - a.toNat)
 
+/-- compile flags of a `booster::regex`: `regex::icase` → `PCRE_CASELESS`, `regex::utf8` → `PCRE_UTF8`
+(with `utf8` the engine refuses subjects that are not valid UTF-8: `PCRE_ERROR_BADUTF8`, i.e. no match) -/
+structure RFlags where
+  icase : Bool := false
+  utf8 : Bool := false
+deriving DecidableEq, Repr
+
 /-- offsets pair as PCRE writes it into `ovector` (`(-1,-1)` = group did not participate) -/
 abbrev Span := Int × Int
 
@@ -24,14 +31,18 @@ abbrev Raw := Span × List Span
 
 /-- The external regex engine (libpcre), as seen through the two calls `booster::regex` makes.
 
-* `info pat icase` — `pcre_compile(pat)` **and** `pcre_compile("(?:"+pat+")\\z")` both succeed;
+* `info pat flags` — `pcre_compile(pat)` **and** `pcre_compile("(?:"+pat+")\\z")` both succeed;
   the value is `PCRE_INFO_CAPTURECOUNT` of `pat`.  `none`: `regex::assign` throws.
-* `exec pat icase s` — `pcre_exec` of the compiled `(?:pat)\z` on `s` at offset 0 with
+* `exec pat flags s` — `pcre_exec` of the compiled `(?:pat)\z` on `s` at offset 0 with
   `PCRE_ANCHORED` and an `ovector` large enough for all groups.
 -/
 structure Rx where
-  info : Bytes → Bool → Option Nat
-  exec : Bytes → Bool → Bytes → Option Raw
+  info : Bytes → RFlags → Option Nat
+  exec : Bytes → RFlags → Bytes → Option Raw
+  /-- second external: `cppcms::encoding::valid(context().locale(), begin, end)` — "is this byte string valid text
+  in the request's character encoding"; the subject of property C14, here a parameter.  Used by the typed handlers
+  of `url_dispatcher::map()` on every captured parameter. -/
+  valid : Bytes → Bool := fun _ => true
 
 /-- A reported span is unset or lies inside the subject. -/
 def spanOk (n : Nat) (sp : Span) : Prop := sp = (-1, -1) ∨ (0 ≤ sp.1 ∧ sp.1 ≤ sp.2 ∧ sp.2 ≤ (n : Int))
@@ -44,10 +55,10 @@ structure RxSound (rx : Rx) : Prop where
   spans : ∀ pat ic s r, rx.exec pat ic s = some r → spanOk s.length r.1 ∧ ∀ sp ∈ r.2, spanOk s.length sp
   arity : ∀ pat ic s r, rx.exec pat ic s = some r → r.2.length ≤ (rx.info pat ic).getD 0
 
-/-- A constructed `booster::regex` (pattern text and the `icase` flag; `utf8` is never set by cppcms routing). -/
+/-- A constructed `booster::regex`: pattern text and flags. -/
 structure Regex where
   pat : Bytes
-  icase : Bool := false
+  flags : RFlags := {}
 deriving DecidableEq, Repr
 
 /-- `booster::cmatch` after a successful `regex_match`: the subject and one span per group 0..mark_count. -/
@@ -70,6 +81,12 @@ def CMatch.str (m : CMatch) (n : Int) : Bytes := (m.get n).getD []
 def CMatch.all (m : CMatch) : List (Option Bytes) :=
   (List.range m.marks.length).map fun (i : Nat) => m.get (Int.ofNat i)
 
+/-- parameter types of `url_dispatcher::map(…, &C::member, obj, g₁, g₂, …)` handlers that are modelled:
+`std::string` (taken as is) and the four integer types read with `std::istream >>` -/
+inductive PType where
+  | str | i32 | u32 | i64 | u64
+deriving DecidableEq, Repr
+
 /-- What a handler registered with the dispatcher receives. -/
 inductive Kind where
   /-- `assign(re, handler)` : no arguments -/
@@ -81,6 +98,9 @@ inductive Kind where
   /-- `map_generic([method,] re, generic_handler)`: gets the `cmatch`; returns `false`
   ("parameters did not validate", the scan continues) iff group `rej.1` converts to `rej.2`. -/
   | gen (rej : Option (Int × Bytes))
+  /-- `map([method,] re, &C::member, obj, g₁ … gₙ)`: group `gᵢ` is checked to be valid text and converted to the
+  `i`-th parameter type; if any check or conversion fails the member is **not** called and the scan continues -/
+  | typed (ps : List (Int × PType))
 deriving DecidableEq, Repr
 
 structure Leaf where
